@@ -221,7 +221,7 @@ func EncodeWithColor(data []byte, minECCPercent int, userSpecifiedLayers int, co
 		}
 	}
 	code := newAztecCode(matrixSize, color)
-	code.content = data
+	code.content = append([]byte(nil), data...) // the barcode must not alias the caller's buffer
 
 	// draw data bits
 	for i, rowOffset := 0, 0; i < layers; i++ {
